@@ -23,13 +23,13 @@ func (c *FnCtx) exec(st *State, s ast.Stmt) {
 	if c.C != nil && c.C.Partial && len(c.frames) == 1 {
 		// `partial` contracts: a statement outside the verified subset ends the path; the
 		// pruned paths are listed in the evidence and nothing is claimed about them
-		nl := len(c.loops)
+		savedLoops, savedFrames := c.loops, c.frames
 		defer func() {
 			if r := recover(); r != nil {
 				if u, ok := r.(unsupported); ok {
 					c.Pruned = append(c.Pruned, u.msg)
 					st.pc = "false"
-					c.loops = c.loops[:nl]
+					c.loops, c.frames = savedLoops, savedFrames
 					return
 				}
 				panic(r)
@@ -67,7 +67,7 @@ func (c *FnCtx) exec(st *State, s ast.Stmt) {
 				for _, n := range vs.Names {
 					obj := c.info().Defs[n]
 					if obj != nil {
-						st.vars[obj] = c.zero(obj.Type())
+						c.declareVar(st, obj, c.zero(obj.Type()))
 					}
 				}
 				continue
@@ -76,7 +76,7 @@ func (c *FnCtx) exec(st *State, s ast.Stmt) {
 				for i, n := range vs.Names {
 					v := c.eval(env, vs.Values[i])
 					if obj := c.info().Defs[n]; obj != nil {
-						st.vars[obj] = c.assignConv(env, v, obj.Type())
+						c.declareVar(st, obj, c.assignConv(env, v, obj.Type()))
 					}
 				}
 				continue
@@ -84,7 +84,7 @@ func (c *FnCtx) exec(st *State, s ast.Stmt) {
 			v := c.eval(env, vs.Values[0])
 			for i, n := range vs.Names {
 				if obj := c.info().Defs[n]; obj != nil && i < len(v.Tuple) {
-					st.vars[obj] = c.assignConv(env, v.Tuple[i], obj.Type())
+					c.declareVar(st, obj, c.assignConv(env, v.Tuple[i], obj.Type()))
 				}
 			}
 		}
@@ -180,7 +180,7 @@ func (c *FnCtx) execAssign(st *State, x *ast.AssignStmt) {
 					continue
 				}
 				if obj := c.info().Defs[id]; obj != nil {
-					st.vars[obj] = c.assignConv(env, vals[i], obj.Type())
+					c.declareVar(st, obj, c.assignConv(env, vals[i], obj.Type()))
 					continue
 				}
 			}
@@ -204,6 +204,12 @@ func (c *FnCtx) assign(env *Env, lhs ast.Expr, v Val, n ast.Node) {
 			c.unsup(n, "assignment to %s", l.Name)
 		}
 		v = c.assignConv(env, v, vr.Type())
+		if c.boxed[vr] {
+			if cell, ok := st.vars[vr]; ok {
+				c.storeTo(env, cell.T, vr.Type(), v.T)
+				return
+			}
+		}
 		if _, isLocal := st.vars[vr]; isLocal || !(vr.Pkg() != nil && vr.Parent() == vr.Pkg().Scope()) {
 			st.vars[vr] = v
 			return
@@ -767,6 +773,11 @@ func (c *FnCtx) loopCore(st *State, ls *LoopSpec, ord int, node ast.Node, body *
 	mods := c.assignedVars(body, node)
 	for _, o := range mods {
 		if v, ok := st.vars[o]; ok {
+			if c.boxed[o] {
+				nv := c.freshVal("l_"+o.Name(), o.Type(), st)
+				c.storeTo(&Env{st: st}, v.T, o.Type(), nv.T)
+				continue
+			}
 			st.vars[o] = c.freshVal("l_"+o.Name(), v.Typ, st)
 		}
 	}
